@@ -207,6 +207,8 @@ var solverBins = []struct{ name, bin string }{
 func solverArgs(name, file string, timeout time.Duration) []string {
 	ms := fmt.Sprintf("%d", timeout.Milliseconds())
 	switch {
+	case name == "z3-5.1.0-intblast":
+		return []string{"-smt2", "-t:" + ms, "smt.bv.solver=2", file}
 	case strings.HasPrefix(name, "z3"):
 		return []string{"-smt2", "-t:" + ms, file}
 	default:
